@@ -339,7 +339,7 @@ def next_case(run, drv, pending, case):
         if case["use_spatial"]:
             rr = reg if reg is not None else creg
             if rr is None:
-                exps.append(("exc", None, set(), mline))
+                exps.append(("exc", cur, set(band), mline))     # cur: the rows the stages in front of the spatial one leave
                 continue
             band |= {r[0] for r in cur if base.in_band(rr, float.fromhex(r[3]), float.fromhex(r[2]))}
             cur = [r for r in cur if base.inside_exact(rr, float.fromhex(r[3]), float.fromhex(r[2]))]
@@ -369,10 +369,16 @@ def next_case(run, drv, pending, case):
                     return        # the pass is aborted by the exception
                 run.oracle_failure(case, f"pass {pas}: __next__ raised {type(e).__name__}: {e} on catalog {k}")
                 return
-            if kind == "exc":
-                run.oracle_failure(case, f"pass {pas}: catalog {k} was yielded although filter_spatial has no region")
-                return
             snap = base.snapshot(got)
+            if kind == "exc":
+                # a MISCONFIGURED forecast (filter_spatial=True, no region anywhere): the code rejects it; a version that applies
+                # the stages it can apply is acceptable too, as long as it does not hand out anything else
+                if [r for r in snap if r[0] not in band] != [r for r in want if r[0] not in band]:
+                    run.oracle_failure(case, f"pass {pas}: filter_spatial without any region: catalog {k} was yielded with ids "
+                                             f"{[r[0] for r in snap]}, neither rejected nor the rows {[r[0] for r in want]} the other stages leave")
+                    return
+                run.count("next:no-region-tolerated")
+                continue
             emptied = emptied or not snap
             if [r for r in snap if r[0] not in band] != [r for r in want if r[0] not in band]:
                 run.oracle_failure(case, f"pass {pas}: catalog {k} yielded with ids {[r[0] for r in snap]}; the events satisfying "
@@ -425,9 +431,10 @@ def gen_extra_case(rng):
                 evs2.append((e[0], e[1], float(lat), float(lon), e[4], e[5]))
             rows = [base.row_of(e) for e in evs2]
     else:
-        m = rng.choice([1, 1, 2, 3])
+        # statement lists of ANY length: the empty list / tuple keeps every row and must still give a separate copy
+        m = rng.choice([0, 1, 1, 1, 2, 2, 3, 4])
         sts = [base.gen_stmt(rng, rows) for _ in range(m)]
-        if rng.random() < 0.3:  # statements every row satisfies
+        if m and rng.random() < 0.3:  # statements every row satisfies
             sts = [dict(text="magnitude >= -100.0", enc="mag,ge,-100", attr="mag", op="ge", value="-100", kind="mag")]
         call = dict(kind="filter", stmts=sts, form=rng.choice(["string", "list", "tuple"]) if len(sts) == 1 else rng.choice(["list", "tuple"]),
                     in_place=rng.random() < 0.3)
@@ -521,15 +528,12 @@ def extra_case(run, case, drv=None, pending=None):
             exp = (min(mag), max(mag), min(lat), max(lat), min(lon), max(lon))
         else:
             exp = (None,) * 6
+        # the summary statistics are not part of property C04 (it speaks about the events): recorded, never a verdict
         try:
-            st = _stats(res)
-        except AttributeError as e:
-            run.oracle_failure(case, f"statistics missing after {call['kind']}: {e}")
-            return
-        if tuple(None if v is None else float(v) for v in st) != exp:
-            run.oracle_failure(case, f"{call['kind']}: min/max statistics {st} do not describe the kept rows {exp}")
-            return
-        run.count("extra:stats-checked")
+            st = tuple(None if v is None else float(v) for v in _stats(res))
+        except Exception:
+            st = "unreadable"
+        run.count("extra:stats-describe-kept-rows" if st == exp else "extra:stats-differ (not part of the property)")
     run.case(dict(kind="extra", call=call["kind"]), ("extra", tuple(rows), str(call)) if 0 < len(got) < len(rows) else None)
 
 
@@ -716,7 +720,6 @@ def session_case(run, drv, pending, case):
     interleaved with writes of the caller into an event array. After EVERY step every live object must hold exactly the rows the
     step's predicate keeps of the target AS IT WAS BEFORE THE STEP (recomputed from scratch), all others unchanged."""
     from . import c04 as base
-    from csep.core.exceptions import CSEPCatalogException
     m_main, mc, epoch = float(case["m_main"]), float(case["mc"]), case["epoch"]
     quad, reg = case["quad"], case["region"]
     robj = _quad_region(quad) if quad else base.build_region(reg)
@@ -762,12 +765,20 @@ def session_case(run, drv, pending, case):
                 mline = " ".join(["c04_hist", base.enc_events(tst["rows"]), "-", "none", f"f:0:1:{base.enc_stmts(sts)}"])
                 newf = list(sts)
             elif o["op"] == "refilter":
+                if not tst.get("fk", True):
+                    # which statements an object has stored after a not-in-place call (on the original: `self.filters = statements`
+                    # in both modes; on an instance built by filter_spatial: none) is incidental, not fixed by the property
+                    run.count("session:skipped-stored-filters-not-fixed-by-the-property")
+                    continue
                 sts = tst["filters"]
                 expect_exc = not sts
                 expected = [r for r in tst["rows"] if all(base.holds(r, s) for s in sts)]
                 res = tobj.filter(in_place=o["in_place"])
                 newf = list(sts)
             elif o["op"] == "spatial":
+                if not o["explicit"] and not tst.get("rk", True):
+                    run.count("session:skipped-stored-region-not-fixed-by-the-property")
+                    continue
                 use_region = o["explicit"] or tst["region"]
                 expect_exc = not use_region
                 expected = [r for r in tst["rows"] if inside(r)]
@@ -788,21 +799,22 @@ def session_case(run, drv, pending, case):
                 newf = None
                 if not srt:
                     mline = None
-        except CSEPCatalogException:
+        except Exception as e:           # which exception class rejects a call is not part of the property
             if not expect_exc:
-                run.oracle_failure(dict(case, failed_step=step), f"step {step} {o['op']} raised CSEPCatalogException")
+                run.oracle_failure(dict(case, failed_step=step), f"step {step} {o['op']} raised {type(e).__name__}: {e}")
                 return
-            if [base.snapshot(x) for x in objs] != before:
-                run.oracle_failure(dict(case, failed_step=step), f"step {step} raised but changed a catalog")
-                return
+            # after an exception raised by the call itself the objects are unconstrained (the property promises nothing there):
+            # the session ends here
             run.count("session:exception")
-            continue
-        except Exception as e:
-            run.oracle_failure(dict(case, failed_step=step), f"step {step} {o['op']} raised {type(e).__name__}: {e}")
-            return
+            break
         if expect_exc:
-            run.oracle_failure(dict(case, failed_step=step), f"step {step} {o['op']} returned although there is nothing to filter by")
-            return
+            # nothing to filter by and the call returned instead of raising: acceptable iff every row of every object was kept
+            if [base.snapshot(x) for x in objs] != before or base.snapshot(res) != before[tg]:
+                run.oracle_failure(dict(case, failed_step=step), f"step {step} {o['op']}: nothing to filter by, the call did not raise "
+                                                                 f"and did not keep every row")
+                return
+            run.count("session:nothing-to-filter-by-tolerated")
+            break
         run.count("session:" + o["op"])
         inpl = o["in_place"]
         if inpl and res is not tobj:
@@ -841,6 +853,13 @@ def session_case(run, drv, pending, case):
             tst["filters"] = newf
         if o["op"] == "spatial":
             tst["region"] = True
+        # stored values that are fixed by the property: put there by the constructor or by an IN-PLACE call with an argument;
+        # what a not-in-place call leaves on the original and what the new instance carries is incidental
+        if o["op"] == "filter":
+            tst["fk"] = bool(inpl)
+        elif o["op"] == "spatial" and o["explicit"]:
+            tst["rk"] = bool(inpl)
+        nst["fk"], nst["rk"] = (tst.get("fk", True), tst.get("rk", True)) if inpl else (False, False)
         if inpl:
             state[tg] = dict(nst, filters=tst["filters"] if o["op"] != "spatial" else tst["filters"])
             state[tg]["rows"] = got
